@@ -66,7 +66,9 @@ CHECKS = {
    technique="TLA+ spec (Storage.tla) + TLC model checking; TLC-generated behaviours replayed on the backends; TLC trace validation incl. linearisability search"),
  "C10": dict(ready=True, engine="sys", design_ref="DESIGN.md 6 (C10), 13",
    text=SYS + "C10: for every base behaviour, one run per (engine provider call index, fault kind in temporary / disconnected / token / out-of-space): FaultNotified "
-        "(matching notification before the step ends), then Converged / NoLoss / AsExpected after the faults stop.",
+        "(matching notification before the step ends), then Converged / NoLoss / AsExpected after the faults stop; base behaviours include restarts whose start-up walk is hit by the "
+        "faults and re-writes of an object whose transfer may have failed half-way; family `stuck`: one path keeps failing for 30 fair rounds - OthersNotStarved (everything else "
+        "synchronised meanwhile), then it succeeds and the sides converge.",
    note=TRUST_SYS + " Faults are injected at engine-issued API calls only; a disconnect fault really disconnects the provider.", technique="fault enumeration over TLC-generated behaviours; TLC trace validation",
    category="fault_enumeration"),
  "C11": dict(ready=True, engine="state", design_ref="DESIGN.md 3.4, 6 (C11), 13",
@@ -127,7 +129,8 @@ CHECKS = {
  "C20": dict(ready=True, engine="sys", design_ref="DESIGN.md 6 (C20), 13",
    text=SYS + "C20: Gen_Smart.tla enumerates on-demand behaviours (remote create/edit/delete, local create/edit, request by path/id, un-request, listing) with schedule tokens, "
         "with/without an auto-sync predicate; the real SmartCloudSync methods run on the traced engine: DownloadOnlyOnDemand at every local engine write, UnrequestedStayRemote / "
-        "RequestedDownloaded / LocalFilesInSync / FoldersMirrored at quiet, UnsyncKeepsRemote / UnsyncRemovesLocal / UnsyncUploadsNewerFirst around un-requests, ListingTruth.",
+        "RequestedDownloaded / LocalFilesInSync / FoldersMirrored at quiet, UnsyncKeepsRemote / UnsyncRemovesLocal / UnsyncUploadsNewerFirst around un-requests (FailedUnsyncKeepsLocal when a "
+        "provider fault makes the un-request fail), ListingTruth; request -> un-request -> re-request histories.",
    note=TRUST_SYS, technique="TLA+ generator (Gen_Smart.tla) + TLC trace validation of the on-demand clauses on the real SmartCloudSync code"),
 }
 
